@@ -49,6 +49,24 @@ SPECS["C02"] = dict(
                 params={"quick": {"MAXREC": 2, "SLOTS": 3}, "thorough": {"MAXREC": 3, "SLOTS": 5}})],
 )
 
+SPECS["C09"] = dict(
+    level="model_checking",
+    engine="E1 enum",
+    technique="bounded exhaustive enumeration of response messages x size limits x compression through the real Pack, output decoded by independent decoders and compared with the input",
+    claim="For every response of the grammar (record sequences up to the bound over 5 size classes, every section assignment, OPT absent or at any "
+          "additional position, pre-set TC) and every limit in {0, 512, 513, 1232, 4096, 65535, U-1, U, U+1, +-2 around each record boundary} with "
+          "compression on and off: the output is within max(512, limit), decodes cleanly with counts matching, TC is set iff something was omitted, nothing is "
+          "omitted when the uncompressed encoding fits, question and OPT survive, and kept answer/authority records are an in-order byte-equal subsequence. "
+          "Listener-level caps (UDP advertised size, 65535 on streams) are checked through the real response packing helpers.",
+    trusted="reference codec engine/refdns; miekg/dns and x/net as extra decoders; limits 1..511 other than 100 are not enumerated (Pack documents 512 as the minimum).",
+    rule="see evidence rule written by the harness",
+    assumptions=["at most one OPT per message (RFC 6891)", "record size classes and limits listed in harness/dnsmsg/zz_verif_c09_test.go"],
+    parts=[dict(name="pack", pkg="internal/dnsmsg", run="TestVerifC09", engines=("choice", "report", "refdns"),
+                files=dict(DNSMSG_COMMON, **{"harness/dnsmsg/zz_verif_c09_test.go": "internal/dnsmsg/zz_verif_c09_test.go",
+                                              "harness/dnsmsg/zz_verif_c02_test.go": "internal/dnsmsg/zz_verif_c02_test.go"}),
+                params={"quick": {"MAXREC": 4}, "thorough": {"MAXREC": 5}})],
+)
+
 
 # --------------------------------------------------------------------------------------------
 # Properties not (yet) claimed. Kept current: every property without a SPECS entry must be here.
